@@ -104,7 +104,7 @@ def raw_json(stream, readings=None):
             d[k] = r
             x &= e
         rd = readings[pos] if readings else {}
-        d.update({"x": x, "ts": NO_TS if ts is None else ts, "tag": "", "cl": [],
+        d.update({"x": x, "ts": NO_TS if ts is None else int(ts), "tag": "", "cl": [],
                   "ik": list(rd.keys()), "iv": [val(v_) for v_ in rd.values()], "sk": [], "sv": []})
         out.append(d)
     return out
@@ -133,6 +133,13 @@ class Session:
             return cfg.build(standalone=False)
         if form == "dict":
             return cfg.as_dict()
+        if form == "used":
+            # an indicator object that has already worked on a candle list of its own (warmed up
+            # standalone) and is then handed to a Hexital: from then on it works on the Hexital's candles
+            warm = mk_candles(self.sc["stream"], self.base, 1, min(6, len(self.sc["stream"])), "candle")
+            ind = cfg.build(candles=warm, standalone=False)
+            ind.calculate()
+            return ind
         return cfg.build(standalone=False).settings      # settings round trip
 
     def new(self, k):
@@ -585,6 +592,15 @@ def record(sc):
                     for j, (_, cs) in enumerate(tw.managers()):
                         last["bt"].append({"j": j + 1, "mode": "prefix", "skip": skip_of[j],
                                            "names": [], "clause": "longer", "cs": proj_candles(cs, base)})
+                elif kind == "reform":
+                    # the same program fed with another encoding of the same candle data
+                    sc2 = dict(sc, form=sc.get("reform_to", "dict_iso"), twins=[])
+                    tw = run_prog(sc2, base)
+                    twm = dict(tw.managers())
+                    for j, n in enumerate(mg_names):
+                        if n in twm:
+                            last["bt"].append({"j": j + 1, "mode": "full", "skip": 0, "names": [],
+                                               "clause": "reform", "cs": proj_candles(twm[n], base)})
                 elif kind == "untrimmed":
                     sc2 = dict(sc)
                     sc2["inds"] = [c.clone(lifespan=None) for c in sc["inds"]]
